@@ -137,6 +137,7 @@ func TestWorker(t *testing.T) {
 		if len(gens) > 1 {
 			gen = gens[int(splitmix64(seed)%uint64(len(gens)))]
 		}
+		genRunIndex = idx
 		sc := gen(prop, seed, thorough)
 		res := RunScenario(t, sc, simrt.NewPolicy(sc.Policy), true)
 		st.Runs++
@@ -330,6 +331,7 @@ func TestOne(t *testing.T) {
 	if len(gens) > 1 {
 		gen = gens[int(splitmix64(seed)%uint64(len(gens)))]
 	}
+	genRunIndex = idx
 	sc := gen(prop, seed, os.Getenv("VERIF_TIER") == "thorough")
 	b, _ := json.Marshal(sc)
 	fmt.Println(string(b))
@@ -365,6 +367,7 @@ func TestDeterminism(t *testing.T) {
 		if len(gens) > 1 {
 			gen = gens[int(splitmix64(seed)%uint64(len(gens)))]
 		}
+		genRunIndex = idx
 		sc := gen(prop, seed, false)
 		res := RunScenario(t, sc, simrt.NewPolicy(sc.Policy), false)
 		nv := 0
@@ -396,6 +399,7 @@ func TestSurvey(t *testing.T) {
 		if len(gens) > 1 {
 			gen = gens[int(splitmix64(seed)%uint64(len(gens)))]
 		}
+		genRunIndex = idx
 		sc := gen(prop, seed, os.Getenv("VERIF_TIER") == "thorough")
 		res := RunScenario(t, sc, simrt.NewPolicy(sc.Policy), false)
 		outcomes[res.Outcome]++
